@@ -93,18 +93,24 @@ def Keys.alloc (ks : Keys) (id : Id) : Keys := { ks with slot := upd ks.slot id 
 /-- ghost: the OS / driver produced the final result `r` for `id` (an `Entry` or CQE now exists) -/
 def Keys.produce (ks : Keys) (id : Id) (r : Res) : Keys := { ks with src := upd ks.src id (ks.src id ++ [r]) }
 
+/-- first half of `ErasedKey::set_result`: `mem::replace(&mut this.result, Ready(res))`; returns the waker
+    that was registered -/
+def Keys.storeResult (ks : Keys) (id : Id) (r : Res) : Keys × Option WakerId :=
+  ({ ks with slot := upd ks.slot id ((ks.slot id).store r).1,
+             fin := upd ks.fin id (ks.fin id ++ [r]),
+             uaf := ks.uaf || (ks.slot id == .free) },
+   ((ks.slot id).store r).2)
+
+/-- `waker.wake()` / `wake_by_ref()`; the log records whether the slot is `Ready` at this moment -/
+def Keys.wake (ks : Keys) (id : Id) (w : WakerId) (final : Bool) : Keys :=
+  { ks with woken := upd ks.woken id (ks.woken id + 1),
+            wakeLog := ks.wakeLog ++ [⟨id, w, (ks.slot id).isReady, final⟩] }
+
 /-- `Entry::notify` = `ErasedKey::set_result`: store the result, THEN wake the registered waker. -/
 def Keys.notify (ks : Keys) (id : Id) (r : Res) : Keys :=
-  let stored := (ks.slot id).store r
-  let ks1 : Keys := { ks with
-    slot := upd ks.slot id stored.1,
-    fin := upd ks.fin id (ks.fin id ++ [r]),
-    uaf := ks.uaf || (ks.slot id == .free) }
-  match stored.2 with
-  | none => ks1
-  | some w => { ks1 with
-      woken := upd ks1.woken id (ks1.woken id + 1),
-      wakeLog := ks1.wakeLog ++ [⟨id, w, (ks1.slot id).isReady, true⟩] }
+  match ks.storeResult id r with
+  | (ks1, none) => ks1
+  | (ks1, some w) => ks1.wake id w true
 
 /-- `Proactor::update_waker` -/
 def Keys.setWaker (ks : Keys) (id : Id) (w : WakerId) : Keys :=
@@ -124,8 +130,7 @@ def Keys.pushMulti (ks : Keys) (id : Id) (r : Res) : Keys :=
   let ks1 : Keys := { ks with multi := upd ks.multi id (ks.multi id ++ [r]),
                                uaf := ks.uaf || (ks.slot id == .free) }
   match ks.slot id with
-  | .pending (some w) => { ks1 with woken := upd ks1.woken id (ks1.woken id + 1),
-                                     wakeLog := ks1.wakeLog ++ [⟨id, w, false, false⟩] }
+  | .pending (some w) => ks1.wake id w false
   | _ => ks1
 
 /-- `Proactor::pop_multishot` on io_uring -/
